@@ -183,6 +183,19 @@ func (d *Decoder) DecodeInteger() (uint64, error) {
 	return d.decodeUintFromReader()
 }
 
+// DecodeIntegerMax decodes a compact integer destined for a narrower field
+// and rejects values the field cannot hold instead of truncating them.
+func (d *Decoder) DecodeIntegerMax(max uint64) (uint64, error) {
+	value, err := d.decodeUintFromReader()
+	if err != nil {
+		return 0, err
+	}
+	if value > max {
+		return 0, fmt.Errorf("integer %d exceeds the field maximum %d", value, max)
+	}
+	return value, nil
+}
+
 // C.6 Deserialization
 func (d *Decoder) DecodeLength() (uint64, error) {
 	cLog(Yellow, "Reading length flag")
